@@ -1141,7 +1141,13 @@ impl<'a, I, A> Strategies<'a, I, A> {
                 for (left_val, right_val) in left.iter().zip(right.iter()) {
                     dist += (left_val - right_val).abs().powf(p);
                 }
-                dist / info.len() as f64
+                if info.is_empty() {
+                    // no decisions to differ in
+                    0.0
+                } else {
+                    // each infoset contributes at most two
+                    dist / (2.0 * info.len() as f64)
+                }
             })
             .collect();
         dists.try_into().unwrap()
